@@ -472,7 +472,11 @@ func TestVerifReplay(t *testing.T) {
 	if strings.Contains(rf.Msg, "[maporder]") || strings.Contains(rf.Func, "MapOrder") {
 		repeat = 300
 	}
-	args := []string{"test", "-tags=verif", "-vet=off", fmt.Sprintf("-count=%d", repeat), "-timeout=600s", "-overlay", ovFile, "-run", "^TestVerifReplay$"}
+	testTimeout := "600s"
+	if rf.Kind == "hang" {
+		testTimeout = "60s" // the harness bounds are tiny: a native run that needs a minute does not terminate
+	}
+	args := []string{"test", "-tags=verif", "-vet=off", fmt.Sprintf("-count=%d", repeat), "-timeout=" + testTimeout, "-overlay", ovFile, "-run", "^TestVerifReplay$"}
 	isRace := strings.Contains(rf.Msg, "[race]")
 	if isRace {
 		args = append(args, "-race")
@@ -485,6 +489,10 @@ func TestVerifReplay(t *testing.T) {
 	out := string(outB)
 	status := "not-reproduced"
 	switch {
+	case rf.Kind == "hang" && strings.Contains(out, "test timed out"):
+		status = "confirmed"
+	case rf.Kind == "hang":
+		status = "not-reproduced"
 	case isRace && strings.Contains(out, "DATA RACE"):
 		status = "confirmed"
 	case isRace:
